@@ -141,7 +141,7 @@ def outcome(r):
 
 def run(ctx):
     rng = ctx.rng
-    n = ctx.scale(96, 3000)
+    n = ctx.scale(128, 3000)
     cases = []
     for i in range(n):
         cases.append(gen_history(rng, tag=f"c08s{ctx.seed}i{i}", shipped=(i % 3 == 2)))
